@@ -78,8 +78,8 @@ impl MT205 {
         // Parse optional Field 13C (can be repeated) - enable duplicates mode
         parser = parser.with_duplicates(true);
         let mut time_indications = Vec::new();
-        while let Ok(field) = parser.parse_field::<Field13C>("13C") {
-            time_indications.push(field);
+        while parser.detect_field("13C") {
+            time_indications.push(parser.parse_field::<Field13C>("13C")?);
         }
         parser = parser.with_duplicates(false);
 
